@@ -11,7 +11,8 @@
 From V.lib Require Import Base.
 From V.c13 Require Import C13Model.
 From V.c17 Require Import C17Spec C17Model C17TypedModel.
-From V.c16 Require Import C16AuxModel C16AuxSeiProofs C16AuxExtractProofs.
+From V.c18 Require C18Model.
+From V.c16 Require Import C16AuxModel C16AuxSeiProofs C16AuxExtractProofs C16AuxAacProofs.
 
 (* ------------------------------------------------------------------ sei.ExtractSEIData *)
 (* every byte list: the Go-shaped run returns what the C17 model returns; never out of fuel;
@@ -111,6 +112,22 @@ Theorem C16_sei_DecodePicTimingAvcSEIHRD_total :
 Proof. exact pt_decode_total. Qed.
 Print Assumptions C16_sei_DecodePicTimingAvcSEIHRD_total.
 
+(* ------------------------------------------------------------------ aac (C18 models; the Go text has no
+   index or slice expression: reads go through bits.Reader, FrequencyTable is a map) *)
+(* every byte list: the counted scan returns what the C18 model returns; at most 188 iterations of the
+   junk scan and 2 Read(8) calls per iteration, also past the end of the input; Ok or Err *)
+Theorem C16_aac_DecodeADTSHeader_total : forall data : list N,
+  exists t r, decode_adts_t data = (C18Model.decode_adts data, t, r) /\ t <= 188 /\ r <= 2 * t /\
+    (C18Model.decode_adts data = Err \/
+     exists h off, C18Model.decode_adts data = Ok (h, off) /\ (0 <= off <= 376)%Z).
+Proof. exact decode_adts_t_total. Qed.
+Print Assumptions C16_aac_DecodeADTSHeader_total.
+
+Theorem C16_aac_DecodeAudioSpecificConfig_total : forall data : list N,
+  C18Model.decode_asc data = Err \/ exists a, C18Model.decode_asc data = Ok a.
+Proof. exact decode_asc_total. Qed.
+Print Assumptions C16_aac_DecodeAudioSpecificConfig_total.
+
 (* ------------------------------------------------------------------ the models compute on hostile inputs *)
 (* known_findings/C16.json F5: SEI NAL payload 04 00 (type 4, size 0) reaches the registered decoder with an
    empty payload; an unregistered payload shorter than the UUID *)
@@ -151,4 +168,17 @@ Proof. vm_compute. repeat split. Qed.
 Example ex_pic_timing_any_parameter :
   pt_decode None 255 [0] = Ok (mkPT None 255 0 [clock_avc_zero 255]) /\
   pt_decode (Some (mkHrd 0 0 0 255 255)) 255 [0] = Err.
+Proof. vm_compute. repeat split. Qed.
+
+(* ADTS: empty input and 400 bytes of ff (never a sync word: layer = 3): 188 iterations, Err;
+   two junk bytes, then a header *)
+Example ex_adts_scan :
+  decode_adts_t [] = (Err, 188, 188) /\
+  decode_adts_t (repeat 255 400) = (Err, 188, 189) /\
+  decode_adts_t [1; 2; 255; 241; 76; 128; 1; 31; 252] =
+    (Ok (C18Model.mkAdts 0 2 3 2 7 1 2047, 2%Z), 3, 4).
+Proof. vm_compute. repeat split. Qed.
+
+Example ex_asc : C18Model.decode_asc [] = Err /\ C18Model.decode_asc [255] = Err /\
+  C18Model.decode_asc [17; 144] = Ok (C18Model.mkAsc 2 2 48000%Z 0%Z false false).
 Proof. vm_compute. repeat split. Qed.
